@@ -370,6 +370,9 @@ func init() {
 					}
 					d = append(d, e)
 				}
+				if len(d) == 1 && i%5 == 3 {
+					d = append(d, d[0]) // the same hunk twice in a row: each is applied, the second on what the first left
+				}
 				return d
 			}
 			var arr []any
